@@ -82,9 +82,10 @@ impl Terminal for RecTerm {
 
 // ------------------------------------------------------------------ alphabet
 
-pub const KIND_NAMES: [&str; 19] = [
+pub const KIND_NAMES: [&str; 22] = [
     "blank", "a", "a/red", "blank/red", "blank/underline", "wide", "wide/red", "img1x1", "img1x2", "img1x1'", "glyph1x2", "img2x1",
     "glyph1x2/underline", "glyphB1x1", "glyph1x2/framed", "U+3000", "U+1680", "tileA", "tileB",
+    "img1x1/red", "blank/reverse-red", "blank/reverse-blue",
 ];
 
 
@@ -162,7 +163,7 @@ impl Alphabet {
             Cell::new_char(under, ' '),
             Cell::new_char(Face::default(), '\u{4e16}'),
             Cell::new_char(red(), '\u{4e16}'),
-            Cell::new_image(i1),
+            Cell::new_image(i1.clone()),
             Cell::new_image(i2),
             Cell::new_image(i1b),
             Cell::new_glyph(red(), glyph.clone()),
@@ -175,6 +176,11 @@ impl Alphabet {
             Cell::new_char(Face::default(), '\u{1680}'),
             Cell::new_image(tile_a),
             Cell::new_image(tile_b),
+            // the first image again, as a cell with another face (only the face differs from kind 7)
+            Cell::new_image(i1.clone()).with_face(red()),
+            // blanks in reverse video: the foreground is what the cell shows
+            Cell::new_char(Face::new(Some(RGBA::new(255, 0, 0, 255)), None, FaceAttrs::REVERSE), ' '),
+            Cell::new_char(Face::new(Some(RGBA::new(0, 0, 255, 255)), None, FaceAttrs::REVERSE), ' '),
         ];
         Alphabet { cells, ptrs }
     }
@@ -186,7 +192,7 @@ impl Alphabet {
     /// (height, width) in cells of the area an image-like kind covers
     fn area(kind: usize) -> Option<(usize, usize)> {
         match kind {
-            7 | 9 | 13 | 17 | 18 => Some((1, 1)),
+            7 | 9 | 13 | 17 | 18 | 19 => Some((1, 1)),
             8 | 10 | 12 | 14 => Some((1, 2)),
             11 => Some((2, 1)),
             _ => None,
@@ -625,7 +631,8 @@ pub fn grids(tier: Tier) -> Vec<(Grid, usize, bool)> {
             (g(1, 6, &long), 6, false),
             (g(1, 3, &vec![0, 1, 7, 10, 12, 13, 14]), 6, true),
             (g(1, 3, &vec![0, 1, 2, 5, 15, 16]), 6, false),
-            (g(1, 3, &vec![0, 1, 7, 17, 18]), 6, true),
+            (g(1, 3, &vec![0, 1, 7, 17, 18, 19]), 6, true),
+            (g(1, 3, &vec![0, 1, 3, 20, 21]), 6, false),
             // more rows than columns
             (g(3, 1, &vec![0, 1, 3, 7, 11, 17]), 6, false),
             (g(3, 2, &vec![0, 1, 11]), 6, false),
@@ -643,7 +650,9 @@ pub fn grids(tier: Tier) -> Vec<(Grid, usize, bool)> {
             (g(2, 2, &vec![0, 1, 10, 12, 13, 14]), 8, false),
             (g(1, 4, &vec![0, 1, 2, 5, 15, 16]), 8, true),
             (g(2, 2, &vec![0, 1, 5, 15, 16]), 8, false),
-            (g(1, 4, &vec![0, 1, 7, 17, 18]), 8, true),
+            (g(1, 4, &vec![0, 1, 7, 17, 18, 19]), 8, true),
+            (g(1, 4, &vec![0, 1, 3, 4, 20, 21]), 8, true),
+            (g(2, 2, &vec![0, 1, 7, 19, 20, 21]), 8, false),
             (g(4, 1, &vec![0, 1, 3, 7, 11, 17]), 8, true),
             (g(3, 2, &vec![0, 1, 7, 11]), 8, false),
             (g(4, 2, &vec![0, 7, 11]), 8, false),
@@ -693,7 +702,7 @@ pub fn run(ctx: &Ctx) -> Result<Report, String> {
         .set("samples", samples.into_vec());
     r.assume("VT semantics of model/screen.rs (xterm/ECMA-48/kitty): ECH erases with the current background only; overwriting half of a wide character blanks the other half keeping its rendition");
     r.assume("display width as defined by unicode-width (the library's own definition)");
-    r.assume("grids up to the listed sizes and the 19 cell kinds; every transition is a real TerminalRenderer::frame call");
+    r.assume("grids up to the listed sizes and the 22 cell kinds; every transition is a real TerminalRenderer::frame call");
     r.violations = viol.into_vec();
     Ok(r)
 }
